@@ -368,3 +368,250 @@ package module
 //@   ensures [C11] only_images: err == nil ==> IMG(escaped) && DEC(escaped, v) && ELEMOK(v, 2)
 //@   ensures [C11] rejects_non_images: !IMG(escaped) ==> err != nil
 //@   props C11
+
+//@ # ====================== pseudo-versions (C18) ======================
+//@ # decimal numerals: NV (value of a digit string, unbounded) and P10 come from package semver's contracts
+//@ spec func DIGITS(s string) bool = len(s) > 0 && alldig(s, 0, len(s))
+
+//@ # x and y agree below i, y[i] is the successor digit of x[i], and above i x has only 9s where y has 0s:
+//@ # then y is x + 1 (carry propagation), for numerals of any length
+//@ lemma nv_carry(x string, y string, i int, n int)
+//@   requires 0 <= i && i < n && n <= len(x) && n <= len(y)
+//@   requires forall k int :: 0 <= k && k < i ==> x[k] == y[k]
+//@   requires y[i] == x[i] + 1
+//@   requires forall k int :: i < k && k < n ==> x[k] == '9' && y[k] == '0'
+//@   ensures NV(y, n) == NV(x, n) + 1
+//@   induction n - i
+//@   uses nv_prefix
+//@   trigger NV(y, n), NV(x, n), x[i]
+//@   trigger NV(y, n), NV(x, n), y[i]
+//@   props C18
+
+//@ lemma nv_all9(x string, n int)
+//@   requires 0 <= n && n <= len(x) && (forall k int :: 0 <= k && k < n ==> x[k] == '9')
+//@   ensures NV(x, n) == P10(n) - 1
+//@   induction n
+//@   trigger NV(x, n)
+//@   props C18
+
+//@ lemma nv_one0(y string, n int)
+//@   requires 1 <= n && n <= len(y) && y[0] == '1' && (forall k int :: 1 <= k && k < n ==> y[k] == '0')
+//@   ensures NV(y, n) == P10(n - 1)
+//@   induction n
+//@   trigger NV(y, n)
+//@   props C18
+
+//@ func incDecimal
+//@   pure
+//@   autoframe
+//@   requires DIGITS(decimal)
+//@   ensures [C18] digits: DIGITS(result)
+//@   ensures [C18] successor: NV(result, len(result)) == NV(decimal, len(decimal)) + 1
+//@   ensures [C18] canonical: CNUM(decimal) ==> CNUM(result)
+//@   loop 0:
+//@     invariant 0 - 1 <= i && i < len(digits) && len(digits) == len(decimal)
+//@     invariant forall k int :: 0 <= k && k <= i ==> digits[k] == decimal[k]
+//@     invariant forall k int :: i < k && k < len(digits) ==> decimal[k] == '9' && digits[k] == '0'
+//@     decreases i + 1
+//@   uses nv_carry nv_all9 nv_one0
+//@   props C18
+
+//@ spec func ALLZERO(s string) bool = forall k int :: 0 <= k && k < len(s) ==> s[k] == '0'
+
+//@ lemma nv_allzero(x string, n int)
+//@   requires 0 <= n && n <= len(x) && (forall k int :: 0 <= k && k < n ==> x[k] == '0')
+//@   ensures NV(x, n) == 0
+//@   induction n
+//@   trigger NV(x, n)
+//@   props C18
+
+//@ # "10...0" with at least one zero: the only numerals whose predecessor is shorter
+//@ spec func ONEZEROS(s string) bool = len(s) > 1 && s[0] == '1' && (forall k int :: 1 <= k && k < len(s) ==> s[k] == '0')
+
+//@ func decDecimal
+//@   pure
+//@   autoframe
+//@   requires alldig(decimal, 0, len(decimal))
+//@   ensures [C18] zero: (len(result) == 0) == ALLZERO(decimal)
+//@   ensures [C18] digits: len(result) > 0 ==> DIGITS(result)
+//@   ensures [C18] predecessor_shrinking: ONEZEROS(decimal) ==> NV(result, len(result)) + 1 == NV(decimal, len(decimal))
+//@   ensures [C18] predecessor: !ONEZEROS(decimal) && len(result) > 0 ==> NV(result, len(result)) + 1 == NV(decimal, len(decimal))
+//@   ensures [C18] canonical: CNUM(decimal) && len(result) > 0 ==> CNUM(result)
+//@   loop 0:
+//@     invariant 0 - 1 <= i && i < len(digits) && len(digits) == len(decimal)
+//@     invariant forall k int :: 0 <= k && k <= i ==> digits[k] == decimal[k]
+//@     invariant forall k int :: i < k && k < len(digits) ==> decimal[k] == '0' && digits[k] == '9'
+//@     decreases i + 1
+//@   uses nv_carry nv_all9 nv_one0
+//@   props C18
+
+//@ # ---------- the pseudo-version pattern ----------
+//@ # pseudoVersionRE = ^v[0-9]+\.(0\.0-|\d+\.\d+-([^+]*\.)?0\.)\d{14}-[A-Za-z0-9]+(\+[0-9A-Za-z-]+(\.[0-9A-Za-z-]+)*)?$
+//@ # transcribed from the right: PE = first '+' (start of the build metadata, the only place the pattern admits one),
+//@ # PJ = last '-' before it (the revision [A-Za-z0-9]+ follows), the 14 digits before that, and the prefix before them
+//@ spec func alnum(c int) bool = digit(c) || upper(c) || lower(c)
+//@ spec func ALNUMS(s string, a int, b int) bool = forall k int :: a <= k && k < b ==> alnum(s[k])
+//@ # last position before e holding byte c (or -1)
+//@ spec func lastb(s string, c int, e int) int decreases e = if e <= 0 || e > len(s) then 0 - 1 else if s[e-1] == c then e - 1 else lastb(s, c, e - 1)
+//@ spec opaque func PE(v string) int = firstplus(v, 0)
+//@ spec opaque func PJ(v string) int = lastb(v, '-', PE(v))
+//@ # the part before the 14 digits: "vN.0.0-" or "vN.M.K-" [anything without '+' ending in '.'] "0."
+//@ spec func PVPREFIX(v string, q int) bool =
+//@     len(v) > 0 && v[0] == 'v' && PA(v) > 1 && PA(v) < q && v[PA(v)] == '.'
+//@     && ((q == PA(v) + 5 && v[PA(v)+1] == '0' && v[PA(v)+2] == '.' && v[PA(v)+3] == '0' && v[PA(v)+4] == '-')
+//@         || (PB(v) > PA(v) + 1 && PB(v) < q && v[PB(v)] == '.' && PC(v) > PB(v) + 1 && PC(v) < q && v[PC(v)] == '-'
+//@             && q >= PC(v) + 3 && v[q-1] == '.' && v[q-2] == '0' && (q - 2 == PC(v) + 1 || v[q-3] == '.')))
+//@ spec opaque func REPV(v string) bool =
+//@     PJ(v) >= 15 && PJ(v) + 1 < PE(v) && ALNUMS(v, PJ(v) + 1, PE(v))
+//@     && alldig(v, PJ(v) - 14, PJ(v)) && PVPREFIX(v, PJ(v) - 14)
+//@     && (PE(v) == len(v) || idseq(v, PE(v) + 1, len(v), false))
+
+//@ lemma lastb_spec(s string, c int, e int)
+//@   requires 0 <= e && e <= len(s)
+//@   ensures 0 - 1 <= lastb(s, c, e) && lastb(s, c, e) < e
+//@   ensures lastb(s, c, e) >= 0 ==> s[lastb(s, c, e)] == c
+//@   ensures forall k int :: lastb(s, c, e) < k && k < e ==> s[k] != c
+//@   induction e
+//@   trigger lastb(s, c, e)
+//@   props C18
+
+//@ lemma lastb_prefix(s string, c int, e int, n int)
+//@   requires 0 <= e && e <= n && n <= len(s)
+//@   ensures lastb(s[:n], c, e) == lastb(s, c, e)
+//@   induction e
+//@   trigger lastb(s[:n], c, e)
+//@   props C18
+
+//@ # strings.LastIndex with a one-byte needle is the last position of that byte
+//@ lemma lastindex_byte(s string, sub string)
+//@   requires len(sub) == 1 && len(s) <= 4611686018427387904
+//@   ensures strings.LastIndex(s, sub) == lastb(s, sub[0], len(s))
+//@   uses lastb_spec
+//@   hint occurs(s, sub, lastb(s, sub[0], len(s)))
+//@   hint occurs(s, sub, strings.LastIndex(s, sub))
+//@   trigger strings.LastIndex(s, sub)
+//@   props C18
+
+//@ lemma lastindex_prefix(s string, sub string, n int)
+//@   requires len(sub) == 1 && len(s) <= 4611686018427387904 && 0 <= n && n <= len(s)
+//@   ensures strings.LastIndex(s[:n], sub) == lastb(s, sub[0], n)
+//@   uses lastindex_byte lastb_prefix
+//@   hint lastb(s[:n], sub[0], n)
+//@   trigger strings.LastIndex(s[:n], sub)
+//@   props C18
+
+//@ axiom pseudo_version_pattern(v string)
+//@   ensures pseudoVersionRE.MatchString(v) == REPV(v)
+//@   trigger pseudoVersionRE.MatchString(v)
+//@   reason "library behaviour: the regexp engine applied to the pattern of pseudoVersionRE, transcribed position by position as REPV (compared with the real regexp on generated strings by govc validate-externs)"
+
+//@ spec func PSEUDO(v string) bool = strings.Count(v, "-") >= 2 && VALID(v) && REPV(v)
+
+//@ func IsPseudoVersion
+//@   pure
+//@   ensures [C18] recognises_the_documented_forms: result == PSEUDO(v)
+//@   uses pseudo_version_pattern
+//@   props C18
+
+//@ lemma lastb_found(s string, c int, e int, p int)
+//@   requires 0 <= p && p < e && e <= len(s) && s[p] == c && (forall k int :: p < k && k < e ==> s[k] != c)
+//@   ensures lastb(s, c, e) == p
+//@   uses lastb_spec
+//@   trigger lastb(s, c, e), s[p]
+//@   props C18
+
+//@ lemma lastb_below(s string, c int, e int, p int)
+//@   requires 0 <= p && p <= e && e <= len(s) && (forall k int :: p <= k && k < e ==> s[k] != c)
+//@   ensures lastb(s, c, e) < p
+//@   uses lastb_spec
+//@   trigger lastb(s, c, e), s[p]
+//@   props C18
+
+//@ # the separator in front of the 14 digits is the last '-' or '.' before the revision's dash
+//@ lemma pv_split(v string)
+//@   requires REPV(v)
+//@   ensures v[PJ(v)-15] == '-' || v[PJ(v)-15] == '.'
+//@   ensures v[PJ(v)-15] == '-' ==> lastb(v, '-', PJ(v)) == PJ(v) - 15 && lastb(v, '.', PJ(v)) < PJ(v) - 15
+//@   ensures v[PJ(v)-15] == '.' ==> lastb(v, '.', PJ(v)) == PJ(v) - 15 && lastb(v, '-', PJ(v)) < PJ(v) - 15
+//@   ensures 15 <= PJ(v) && PJ(v) + 1 < PE(v) && PE(v) <= len(v) && v[PJ(v)] == '-'
+//@   uses lastb_found lastb_below lastb_spec firstplus_bounds
+//@   hint lastb(v, '-', PJ(v))
+//@   hint lastb(v, '.', PJ(v))
+//@   trigger REPV(v)
+//@   props C18
+
+//@ # what the scanning steps of parsePseudoVersion compute on a pseudo-version
+//@ lemma pv_scan(v string)
+//@   requires VALID(v) && REPV(v) && len(v) <= 4611686018427387904
+//@   ensures semver.Build(v) == v[PE(v):] && strings.TrimSuffix(v, semver.Build(v)) == v[:PE(v)]
+//@   ensures strings.LastIndex(v[:PE(v)], "-") == PJ(v)
+//@   ensures v[:PE(v)][:PJ(v)] == v[:PJ(v)] && v[:PE(v)][PJ(v)+1:] == v[PJ(v)+1:PE(v)]
+//@   ensures FORM1(v) ==> strings.LastIndex(v[:PJ(v)], "-") == PJ(v) - 15 && strings.LastIndex(v[:PJ(v)], ".") < PJ(v) - 15
+//@   ensures !FORM1(v) ==> strings.LastIndex(v[:PJ(v)], ".") == PJ(v) - 15 && strings.LastIndex(v[:PJ(v)], "-") < PJ(v) - 15
+//@   ensures v[:PJ(v)][:PJ(v)-15] == v[:PJ(v)-15] && v[:PJ(v)][PJ(v)-14:] == v[PJ(v)-14:PJ(v)]
+//@   uses bld_tail lastindex_prefix pv_split
+//@   hint lastb(v, '-', PE(v))
+//@   trigger REPV(v), semver.Build(v)
+//@   props C18
+
+//@ # base, timestamp, revision and build metadata are the regions of the pattern
+//@ func parsePseudoVersion
+//@   ensures [C18] accepts_pseudo_versions_only: (err == nil) == PSEUDO(old(v))
+//@   ensures [C18] build_part: err == nil ==> build == old(v)[PE(old(v)):] && build == BLD(old(v))
+//@   ensures [C18] rev_part: err == nil ==> rev == old(v)[PJ(old(v))+1:PE(old(v))]
+//@   ensures [C18] time_part: err == nil ==> timestamp == old(v)[PJ(old(v))-14:PJ(old(v))]
+//@   ensures [C18] base_part: err == nil ==> base == old(v)[:PJ(old(v))-15]
+//@   ensures err != nil ==> base == "" && timestamp == "" && rev == "" && build == ""
+//@   uses pv_scan pv_split
+//@   props C18
+
+//@ # the three shapes of a pseudo-version: vX.0.0-ts-rev (no base), vX.Y.(Z+1)-0.ts-rev (release base),
+//@ # vX.Y.Z-pre.0.ts-rev (prerelease base); PQ is where the 14-digit timestamp starts
+//@ spec func PQ(v string) int = PJ(v) - 14
+//@ spec func FORM1(v string) bool = v[PQ(v)-1] == '-'
+//@ spec func FORM23(v string) bool = v[PQ(v)-1] == '.' && PQ(v) - 3 == PC(v)
+//@ spec func FORM45(v string) bool = v[PQ(v)-1] == '.' && PQ(v) - 3 > PC(v)
+
+//@ # what semver says about the base region v[:PQ-1] of a pseudo-version
+//@ lemma pv_base1(v string)
+//@   requires VALID(v) && REPV(v) && FORM1(v) && len(v) <= 4611686018427387904
+//@   ensures semver.Prerelease(v[:PQ(v)-1]) == ""
+//@   uses pv_split pos_prefix pos_patch pos_minor pos_major digend_bounds
+//@   hint PA(v)
+//@   hint PB(v)
+//@   hint PC(v)
+//@   hint PC(v[:PQ(v)-1])
+//@   hint PB(v[:PQ(v)-1])
+//@   hint PA(v[:PQ(v)-1])
+//@   hint digend(v, PA(v) + 2)
+//@   hint digend(v, PA(v) + 4)
+//@   trigger REPV(v), semver.Prerelease(v[:PQ(v)-1])
+//@   props C18
+
+//@ lemma pv_base2(v string)
+//@   requires VALID(v) && REPV(v) && !FORM1(v) && len(v) <= 4611686018427387904
+//@   ensures HASPRE(v) && PE(v) == firstplus(v, PC(v) + 1)
+//@   ensures VALID(v[:PQ(v)-1])
+//@   ensures semver.Prerelease(v[:PQ(v)-1]) == v[PC(v):PQ(v)-1]
+//@   ensures PC(v[:PQ(v)-1]) == PC(v) && PB(v[:PQ(v)-1]) == PB(v) && PA(v[:PQ(v)-1]) == PA(v)
+//@   ensures 1 < PA(v) && PA(v) + 1 < PB(v) && PB(v) + 1 < PC(v) && PC(v) + 2 <= PQ(v) - 1 && v[PB(v)] == '.' && v[PC(v)] == '-' && alldig(v, PB(v) + 1, PC(v))
+//@   ensures v[PQ(v)-2] == '0' && (PQ(v) - 3 == PC(v) || v[PQ(v)-3] == '.')
+//@   uses pv_split valid_cut bld_tail_pre bld_tail firstplus_bounds digend_bounds pos_major pos_minor pos_patch
+//@   hint PA(v)
+//@   hint PB(v)
+//@   hint PC(v)
+//@   hint VALID(v[:PQ(v)-1])
+//@   hint firstplus(v, PC(v) + 1)
+//@   trigger REPV(v), semver.Prerelease(v[:PQ(v)-1])
+//@   props C18
+
+//@ func PseudoVersionBase
+//@   ensures [C18] only_pseudo_versions: result1 == nil ==> PSEUDO(v)
+//@   ensures [C18] no_base: PSEUDO(v) && FORM1(v) ==> result0 == "" && (result1 == nil) == (v[PE(v):] == "")
+//@   ensures [C18] release_base: PSEUDO(v) && FORM23(v) ==> (result1 == nil) == !ALLZERO(v[PB(v)+1:PC(v)])
+//@   ensures [C18] release_base_value: PSEUDO(v) && FORM23(v) && result1 == nil ==> result0 == v[:PB(v)+1] + decDecimal(v[PB(v)+1:PC(v)]) + v[PE(v):]
+//@   ensures [C18] prerelease_base: PSEUDO(v) && FORM45(v) ==> result1 == nil && result0 == v[:PQ(v)-3] + v[PE(v):]
+//@   uses pv_split pv_base1 pv_base2
+//@   hint v[:PC(v)][PB(v)]
+//@   hint v[:PQ(v)-1]
+//@   props C18
